@@ -188,7 +188,8 @@ func (t *ArrayType) Default() px.Type {
 func (t *ArrayType) IsAssignable(o px.Type, g px.Guard) bool {
 	switch o := o.(type) {
 	case *ArrayType:
-		return t.size.IsAssignable(o.size, g) && GuardedIsAssignable(t.typ, o.typ, g)
+		// The only instance of an array type with maximal size 0 is the empty array: its element type describes no element
+		return t.size.IsAssignable(o.size, g) && (o.size.max <= 0 || GuardedIsAssignable(t.typ, o.typ, g))
 	case *TupleType:
 		return t.size.IsAssignable(o.givenOrActualSize, g) && tupleAssignableTo(o, t.typ, g)
 	default:
